@@ -17,7 +17,7 @@ RULE = ("G-sim traces (1-4 streams, touching kernels, zero-duration kernels, dro
         "Non-trivial: a stream with >= 3 kernels and >= 2 categories with positive idle time. Distinct = hash of files + cfg.")
 ASSUMPTIONS = ["well-formed regime; kernels of one stream do not overlap (G-sim) and have distinct starts", ">= 1 kernel on the rank after trimming",
                "kernel categories as documented: kernel, gpu_memset, gpu_memcpy"]
-PLAN = {"quick": {"shards": 16, "cases": 400, "timeout": 600}, "thorough": {"shards": 16, "cases": 8000, "timeout": 3000}}
+PLAN = {"quick": {"shards": 16, "cases": 800, "timeout": 600}, "thorough": {"shards": 16, "cases": 8000, "timeout": 3000}}
 FLOORS = {"quick": {"distinct_nontrivial": 100, "streams_judged": 700, "gaps_host_wait": 500, "gaps_kernel_wait": 300, "gaps_other": 300,
                     "gap_equals_threshold": 30, "launch_start_equals_prev_end": 20, "unlinked_kernels": 50},
           "thorough": {"distinct_nontrivial": 2000, "streams_judged": 14000, "gaps_host_wait": 10000, "gaps_kernel_wait": 6000, "gaps_other": 6000,
